@@ -283,6 +283,22 @@ func genC15(t *rapid.T) c15Case {
 		lv.Items = append(lv.Items, m.YStr("vlong"))
 		used[fmt.Sprintf("long-list:%d", n)] = true
 	}
+	// an `or` of embedded Rego checks that each set their own message and that every node fails: whatever the
+	// translator makes of several messages in one rule body, it must not depend on the order of the operands
+	if vals := ya.Get("validations"); vals != nil && rapid.IntRange(0, 5).Draw(t, "messageRegos") == 0 {
+		ops := m.YSeq()
+		for _, x := range subset(t, []string{"zz1", "zz2", "zz3"}, 2, 3, "messageOperands") {
+			ops.Items = append(ops.Items, m.YMap().Set("rego", m.YStr("$message = \"no "+x+"\"\n$result = (count(object.get($node, \"http://ex.org/v#"+x+"\", [])) > 0)")))
+		}
+		vals.Set("vmsg", m.YMap().Set("targetClass", m.YStr("ex.Test")).Set("or", ops))
+		lv := ya.Get("violation")
+		if lv == nil {
+			lv = m.YSeq()
+			ya.Set("violation", lv)
+		}
+		lv.Items = append(lv.Items, m.YStr("vmsg"))
+		used["or-of-regos-with-messages"] = true
+	}
 	// a mapping that carries two expression keys (say propertyConstraints and not): the language reads one of them,
 	// whichever it is, and which one must not depend on the order they are written in
 	if vals := ya.Get("validations"); vals != nil && rapid.IntRange(0, 4).Draw(t, "twoExpressionKeys") == 0 {
